@@ -200,7 +200,12 @@ def run(run):
                 # the same item more than once in the SELECT list: one value per item all the same
                 k9 = rng.choice([k for k in ("method_declaration", "class_declaration", "variable_declaration") if proj.by_kind.get(k)])
                 text = rng.choice(['FROM %s AS e SELECT e.getName(), "-", e.getName()', 'FROM %s AS e SELECT e.getName(), "|", e.getVisibility(), "|"',
-                                   'FROM %s AS e SELECT "x", "x"', 'FROM %s AS e SELECT e, e.getName(), e']) % k9
+                                   'FROM %s AS e SELECT "x", "x"', 'FROM %s AS e SELECT e, e.getName(), e',
+                                   # an item that cannot be evaluated (no such accessor) keeps its place in every row
+                                   'FROM %s AS e SELECT e.getName(), e.getNoSuchThing(), "lit", e.getVisibility()',
+                                   'FROM %s AS e SELECT e.getNoSuchThing(), e.getName()']) % k9
+                if qi == 6:
+                    text = 'FROM %s AS e SELECT e.getName(), e.getNoSuchThing(), "lit", e.getVisibility()' % k9
                 stats["repeated_select_items"] += 1
                 q = None
             elif qi % 9 == 4:
